@@ -440,6 +440,10 @@ func (cc *Session) clearKsConns(nsChangeIndex uint32) {
 			ksConn.Recycle()
 		}
 		cc.executor.ksConns = make(map[string]backend.PooledConnect)
+		// the change has been handled: without this the connection pinned by the current
+		// command is dropped again as soon as the command has run, and a BEGIN that follows
+		// a reload closes the session (shouldClearKsAndCloseSession)
+		cc.executor.nsChangeIndexOld = cc.getNamespace().namespaceChangeIndex
 	}
 }
 
